@@ -8,7 +8,7 @@ from fractions import Fraction
 import numpy as np
 
 from . import drive  # noqa: F401  (imports panoptica quietly)
-from .drive import quiet
+from .drive import quiet, mem_limit
 from .project import TOK, flat, lcm_list, milli_record, rank_map, rat_record, shape_of, var_record
 
 from panoptica import (InputType, Metric, MetricMode, NaiveThresholdMatching, Panoptica_Evaluator,
@@ -45,7 +45,7 @@ def rec_match(pred, ref, kind: str, mm: str, thr, chain=(), dtype=np.uint8, meta
                         "raw_ref": ref.ravel().tolist()})
     outs = []
     try:
-        with quiet():
+        with quiet(), mem_limit():
             for t in [thr] + list(chain):
                 pair = UnmatchedInstancePair(pred.copy(), ref.copy())
                 m = make_matcher(kind, mm, t).match_instances(pair)
@@ -67,3 +67,167 @@ def rec_match(pred, ref, kind: str, mm: str, thr, chain=(), dtype=np.uint8, meta
             rec["meta"]["exception"] = "shape of matched prediction differs from input"
         rec["chain"] = [{"thr": list(t), "mp": flat(mp, rmap)} for (t, mp, _) in outs[1:]]
     return rec
+
+
+# --------------------------------------------------------------------------------------
+# evaluate(): configuration records <-> real objects, result projection
+# --------------------------------------------------------------------------------------
+SCEN = ("NO_INSTANCES", "EMPTY_PRED", "EMPTY_REF", "NORMAL")
+DEFAULT_ZT = {
+    "DSC": {"NO_INSTANCES": "NAN", "EMPTY_PRED": "ZERO", "EMPTY_REF": "ZERO", "NORMAL": "ZERO"},
+    "clDSC": {"NO_INSTANCES": "NAN", "EMPTY_PRED": "ZERO", "EMPTY_REF": "ZERO", "NORMAL": "ZERO"},
+    "IOU": {"NO_INSTANCES": "NAN", "EMPTY_PRED": "ZERO", "EMPTY_REF": "ZERO", "NORMAL": "ZERO"},
+    "ASSD": {"NO_INSTANCES": "NAN", "EMPTY_PRED": "INF", "EMPTY_REF": "INF", "NORMAL": "INF"},
+    "RVD": {"NO_INSTANCES": "NAN", "EMPTY_PRED": "NAN", "EMPTY_REF": "NAN", "NORMAL": "NAN"},
+}
+DEFAULT_H = {"zt": DEFAULT_ZT, "estd": "NAN"}
+SQ_KEY = {"IOU": "sq", "DSC": "sq_dsc", "ASSD": "sq_assd", "RVD": "sq_rvd", "clDSC": "sq_cldsc"}
+PQ_KEY = {"IOU": "pq", "DSC": "pq_dsc", "clDSC": "pq_cldsc"}
+INPUT = {"SEM": InputType.SEMANTIC, "UNM": InputType.UNMATCHED_INSTANCE, "MAT": InputType.MATCHED_INSTANCE}
+BACKEND = {"default": None, "cc3d": CCABackend.cc3d, "scipy": CCABackend.scipy}
+
+
+def default_cfg(**kw) -> dict:
+    c = {"input": "UNM", "backend": "default", "matcher": "naive", "mm": "IOU", "thr": [1, 2],
+         "dm": "NONE", "dthr": [0, 1], "im": ["DSC", "IOU", "ASSD", "RVD"], "gm": ["DSC"],
+         "h": DEFAULT_H}
+    c.update(kw)
+    return c
+
+
+def make_handler(h: dict) -> EdgeCaseHandler:
+    zt = {}
+    for m, row in h["zt"].items():
+        zt[METRIC[m]] = MetricZeroTPEdgeCaseHandling(
+            no_instances_result=EdgeCaseResult[row["NO_INSTANCES"]],
+            empty_prediction_result=EdgeCaseResult[row["EMPTY_PRED"]],
+            empty_reference_result=EdgeCaseResult[row["EMPTY_REF"]],
+            normal=EdgeCaseResult[row["NORMAL"]])
+    return EdgeCaseHandler(listmetric_zeroTP_handling=zt, empty_list_std=EdgeCaseResult[h["estd"]])
+
+
+def make_evaluator(cfg: dict, groups=None, **extra) -> Panoptica_Evaluator:
+    return Panoptica_Evaluator(
+        expected_input=INPUT[cfg["input"]],
+        instance_approximator=ConnectedComponentsInstanceApproximator(cca_backend=BACKEND[cfg["backend"]]),
+        instance_matcher=make_matcher(cfg["matcher"], cfg["mm"], cfg["thr"]),
+        edge_case_handler=make_handler(cfg["h"]),
+        segmentation_class_groups=groups,
+        instance_metrics=[METRIC[m] for m in cfg["im"]],
+        global_metrics=[METRIC[m] for m in cfg["gm"]],
+        decision_metric=None if cfg["dm"] == "NONE" else METRIC[cfg["dm"]],
+        decision_threshold=None if cfg["dm"] == "NONE" else cfg["dthr"][0] / cfg["dthr"][1],
+        **extra)
+
+
+def _safe_get(res, key):
+    try:
+        return True, getattr(res, key)
+    except Exception:  # noqa: BLE001  (an uncomputable metric is reported as absent)
+        return False, None
+
+
+def project_result(res, cfg: dict, nvox: int) -> dict:
+    """PanopticaResult -> the res record of PipelineOps.tla (value records)."""
+    out = {"nref": int(res.num_ref_instances), "npred": int(res.num_pred_instances), "tp": int(res.tp)}
+    ok, fp = _safe_get(res, "fp")
+    out["fp"] = int(fp) if ok and fp is not None else -999
+    ok, fn = _safe_get(res, "fn")
+    out["fn"] = int(fn) if ok and fn is not None else -999
+    ninst = max(1, out["nref"] + out["npred"])
+    ok, rq = _safe_get(res, "rq")
+    out["rq"] = rat_record(rq, 4 * ninst + 4) if ok else TOK("absent")
+    lists, sq, std, pq = {}, {}, {}, {}
+    for m in cfg["im"]:
+        try:
+            vals = list(res.get_list_metric(METRIC[m], MetricMode.ALL))
+        except Exception:  # noqa: BLE001
+            vals = None
+        if vals is None:
+            lists[m] = [TOK("absent")]
+            sq[m] = std[m] = TOK("absent")
+            continue
+        if m == "ASSD":
+            lists[m] = [milli_record(v) for v in vals]
+            ok, v = _safe_get(res, SQ_KEY[m])
+            sq[m] = milli_record(v) if ok else TOK("absent")
+            ok, v = _safe_get(res, SQ_KEY[m] + "_std")
+            if ok and v is not None and not (isinstance(v, float) and (math.isnan(v) or math.isinf(v))) and len(vals) > 0:
+                std[m] = TOK("skip")
+            else:
+                std[m] = rat_record(v, 1) if ok else TOK("absent")
+        else:
+            recs = [rat_record(v, 2 * nvox) for v in vals]
+            lists[m] = recs
+            dens = [r["v"][1] for r in recs if r["k"] == "rat"]
+            L = lcm_list(dens) if dens else 1
+            n = max(1, len(vals))
+            ok, v = _safe_get(res, SQ_KEY[m])
+            if not ok:
+                sq[m] = TOK("absent")
+            elif len(vals) > 0 and L * n > 10**6:
+                sq[m] = TOK("skip")
+            else:
+                sq[m] = rat_record(v, L * n)
+            ok, v = _safe_get(res, SQ_KEY[m] + "_std")
+            if not ok:
+                std[m] = TOK("absent")
+            elif len(vals) > 0 and (L * n) ** 2 * n > 10**6:
+                std[m] = TOK("skip")
+            else:
+                std[m] = var_record(v, (L * n) ** 2 * n)
+        if m in PQ_KEY:
+            ok, v = _safe_get(res, PQ_KEY[m])
+            if not ok:
+                pq[m] = TOK("absent")
+            elif sq[m]["k"] == "skip":
+                pq[m] = TOK("skip")
+            else:
+                d = (sq[m]["v"][1] if sq[m]["k"] == "rat" else 1) * (out["rq"]["v"][1] if out["rq"]["k"] == "rat" else 1)
+                pq[m] = rat_record(v, d) if d < 2**30 else TOK("skip")
+    out.update({"lists": lists, "sq": sq, "std": std, "pq": pq})
+    glob = {}
+    for m in cfg["gm"]:
+        ok, v = _safe_get(res, f"global_bin_{m.lower()}")
+        if not ok:
+            glob[m] = TOK("absent")
+        elif m == "ASSD":
+            glob[m] = milli_record(v)
+        else:
+            glob[m] = rat_record(v, 2 * nvox)
+    out["glob"] = glob
+    # TLC cannot read empty JSON objects as records: keep every map non-empty
+    for k in ("lists", "sq", "std", "pq", "glob"):
+        if not out[k]:
+            out[k] = {"_": TOK("skip")} if k != "lists" else {"_": []}
+    return out
+
+
+def rec_evaluate(pred, ref, cfg: dict, dtype=np.uint8, meta=None, evaluator=None, group="ungrouped",
+                 transform=None) -> dict:
+    """One call of Panoptica_Evaluator.evaluate, projected."""
+    pred = np.asarray(pred).astype(dtype)
+    ref = np.asarray(ref).astype(dtype)
+    rmap = rank_map(pred, ref)
+    rec = {"shape": shape_of(ref), "pred": flat(pred, rmap), "ref": flat(ref, rmap), "cfg": cfg, "out": "ok",
+           "res": None, "meta": dict(meta or {})}
+    rec["meta"].update({"dtype": str(np.dtype(dtype)), "raw_pred": pred.ravel().tolist(),
+                        "raw_ref": ref.ravel().tolist()})
+    p_in, r_in = (pred, ref) if transform is None else transform(pred, ref)
+    try:
+        with quiet(), mem_limit():
+            ev = evaluator if evaluator is not None else make_evaluator(cfg)
+            out = ev.evaluate(p_in, r_in, verbose=False)
+            res = out[group][0]
+        rec["res"] = project_result(res, cfg, int(np.prod(ref.shape)))
+    except Exception as e:  # noqa: BLE001
+        rec["out"] = "raise"
+        rec["meta"]["exception"] = f"{type(e).__name__}: {e}"[:300]
+        rec["meta"]["tb"] = traceback.format_exc()[-800:]
+        rec["res"] = EMPTY_RES
+    return rec
+
+
+EMPTY_RES = {"nref": 0, "npred": 0, "tp": 0, "fp": 0, "fn": 0, "rq": TOK("absent"), "lists": {"_": []},
+             "sq": {"_": TOK("skip")}, "std": {"_": TOK("skip")}, "pq": {"_": TOK("skip")},
+             "glob": {"_": TOK("skip")}}
